@@ -817,8 +817,9 @@ fn c05_request_conversions() {
             Ok(sp) => {
                 assert!(kind == 0 && sp.request.request_id.get() == my);
                 use crate::parser::stream::verif_kani as sv;
-                assert!(sv::x_geo(&sp) == (0, 0, 0, il, B), "stream parser must start with all look-ahead as raw bytes");
-                if i < il { assert!(sv::x_byte(&sp, i) == buf[i], "look-ahead bytes changed by the hand-over"); }
+                let (rs, rl) = sv::x_raw(&sp);
+                assert!(sp.stream_buffer().is_empty() && rl == il && sv::x_geo(&sp).4 == B, "stream parser must start with all look-ahead as raw bytes and no stream data");
+                if i < il { assert!(sv::x_byte(&sp, rs + i) == buf[i], "look-ahead bytes changed by the hand-over"); }
                 assert!(sv::x_out(&sp) == (0, 0), "stale output leaked into the stream parser");
                 assert!(sv::x_rec(&sp) == (0, 0) && sv::x_state(&sp) == 1);
                 let first = match role { fcgi::Role::Authorizer => None, _ => Some(fcgi::RecordType::Stdin) };
